@@ -225,6 +225,32 @@ func c05Builders() []struct {
 			return ps
 		},
 	}
+	// series with no or hardly any segment under a forced index (MinPoints 1, 0, negative),
+	// as line, as ring and as a hole of a square
+	for _, n := range []int{0, 1, 2, 3} {
+		for _, k := range []geometry.IndexKind{geometry.RTree, geometry.QuadTree} {
+			for _, mp := range []int{1, 0, -1} {
+				for shape := 0; shape < 3; shape++ {
+					n, k, mp, shape := n, k, mp, shape
+					out = append(out, struct {
+						name string
+						fn   func() geojson.Object
+					}{fmt.Sprintf("tiny n=%d kind=%v min=%d shape=%d", n, k, mp, shape), func() geojson.Object {
+						opts := &geometry.IndexOptions{Kind: k, MinPoints: mp}
+						ps := layouts["grid3x3"](9)[4 : 4+n]
+						switch shape {
+						case 0:
+							return geojson.NewLineString(geometry.NewLine(ps, opts))
+						case 1:
+							return geojson.NewPolygon(geometry.NewPoly(ps, nil, opts))
+						}
+						sq := []geometry.Point{{X: -5, Y: -5}, {X: 5, Y: -5}, {X: 5, Y: 5}, {X: -5, Y: 5}, {X: -5, Y: -5}}
+						return geojson.NewPolygon(geometry.NewPoly(sq, [][]geometry.Point{ps}, opts))
+					}})
+				}
+			}
+		}
+	}
 	for _, ln := range []string{"duplicates", "duplicates+excursion", "grid3x3", "collinear"} {
 		gen := layouts[ln]
 		for _, n := range []int{16, 17, 18, 19, 21, 33, 34, 40, 70, 300} {
